@@ -319,12 +319,17 @@ func (p *Prog) SrcFuncs() []*ssa.Function {
 		}
 		out = append(out, fn)
 	}
-	sort.Slice(out, func(i, j int) bool {
-		if out[i].Pos() != out[j].Pos() {
-			return out[i].Pos() < out[j].Pos()
-		}
-		return out[i].String() < out[j].String()
-	})
+	// order by file name and offset (token.Pos values depend on the order in which go/packages
+	// happened to parse the files, which differs between runs)
+	key := func(f *ssa.Function) string {
+		ps := p.Fset.Position(f.Pos())
+		return fmt.Sprintf("%s:%09d:%s", ps.Filename, ps.Offset, f.String())
+	}
+	keys := map[*ssa.Function]string{}
+	for _, f := range out {
+		keys[f] = key(f)
+	}
+	sort.Slice(out, func(i, j int) bool { return keys[out[i]] < keys[out[j]] })
 	p.srcFns = out
 	return out
 }
